@@ -22,8 +22,9 @@ LEVEL_TEXT = ("Coq theorems over executable models of (1) the HDF5 store with h5
               "the source's values, a deep copy lives in freshly allocated cells closed under reachability and no mutation of them is visible "
               "through the source; (3) VCF import (positionally exact; with grouping a stable sort + run-length metadata), stated also from the TEXT of the "
               "file: a data line -> the attributes cyvcf2 derives (CHROM, POS as a 32-bit field, start, end = start + len(REF), ID) -> the record each "
-              "importer builds through the attribute selectors regenerated from both from_vcf bodies; every array equals its column of the file for "
-              "every coordinate below 2^31, REF / ALT (deletions, insertions, MNPs) play no part, and a coordinate >= 2^31 is refuted (known finding); and the data-frame "
+              "importer builds through the attribute selectors regenerated from both from_vcf bodies (the position is variant.start + 1, 64-bit); every array equals its column of the file for "
+              "EVERY coordinate, REF / ALT (deletions, insertions, MNPs) play no part; the defect that was repaired in the library (position read from the 32-bit variant.POS: a "
+              "coordinate >= 2^31 came back reduced modulo 2^32) is kept as a refutation about the former definition old_vcf_text_import, which is proved equal to the current one below 2^31; and the data-frame "
               "codecs (Morgan genetic maps lossless; the egmap file pair reproduces every extended map, marker names and function codes "
               "included, and both map constructors keep the interpolation kind / fill value they are given - the two defects that were "
               "repaired in the library are kept as refutations about the former definitions old_egmap_to / old_egmap_from / "
@@ -47,7 +48,7 @@ LEVEL_TEXT = ("Coq theorems over executable models of (1) the HDF5 store with h5
               "cyvcf2, the typed readers called directly, and copy/mutation experiments.")
 LEVEL_NOTE = ("trusted: Coq kernel + vm_compute, PrimFloat primitives (data-frame codecs), h5py/HDF5 (modelled as a path->node map with "
               "create/delete/membership), pandas (frames are compared cell by cell; CSV text is not modelled: the frame pandas parses back is an "
-              "input of the model), cyvcf2 (VCF text -> attributes of a record; its 32-bit POS, 64-bit start/end are modelled as observed), numpy copy semantics (ndarray.__copy__/__deepcopy__ duplicate the buffer). "
+              "input of the model), cyvcf2 (VCF text -> attributes of a record; its 32-bit POS, 64-bit start/end are modelled as observed; the importers read start), numpy copy semantics (ndarray.__copy__/__deepcopy__ duplicate the buffer). "
               "Theorems are about the Gallina models; the tie to the code is differential on generated inputs plus the regenerated field tables. "
               "Not proved: general (all-size) round trips of the wide/long data-frame "
               "codecs other than Morgan genetic maps and egmap files, class-level (all attributes at once) copy equality. "
@@ -71,7 +72,7 @@ RULE = ("case kinds from one PRNG: h5 (class, group name incl. nested/non-ASCII/
         "names, phased and unphased class, with and without grouping, a share with tied coordinates; and 'rich' files cycling importer x "
         "auto_group_vrnt: deletions (REF of 2-9 bases), insertions, MNPs, several ALT alleles and symbolic ones, '.' / duplicated / 'None' / "
         "non-ASCII identifiers, 1-4 contigs (numbers up to 2^31+5) whose header order is as drawn and records in file, contig-block or sorted "
-        "order, coordinates 1..40, up to 10^7, up to 2^30, at 2^31-1 and - one case in seven - beyond 2^31, 130-300 samples in one case out of "
+        "order, coordinates 1..40, up to 10^7, up to 2^30, at 2^31-1 and - one case in seven - at and beyond 2^31 / 2^32 (ordinary cases since the repair of the 32-bit wrap: they must agree), 130-300 samples in one case out of "
         "nine, duplicated coordinates, all four phased calls; every vcf case is evaluated in Coq from the text of its lines), df (8 classes via pandas or CSV with "
         "matching options, columns addressed by name or by position, dyadic and awkward floats, sorted/unsorted and absent labels, cM/M units, "
         "default arguments on both sides, interpolation kind handed to the reader, ExtendedGeneticMap through to_egmap/from_egmap and through "
@@ -878,11 +879,7 @@ def classify(case, out, clauses):
         if clauses and only_h:
             steps = [int(c.split("(step ")[1].split(")")[0]) for c in clauses]
             if all(_hyper_none(case["objs"][i]) for i in steps): return "C16-h5-hyperparams-none-dropped"
-    if case["kind"] == "vcf" and clauses and "exc" not in out:
-        # known: cyvcf2's `variant.POS` is a 32-bit field, a coordinate >= 2^31 comes back reduced modulo 2^32.  Accepted only when the
-        # file has such a coordinate AND the whole output is exactly what the file with the wrapped coordinates would give
-        if any(r["pos"] > POS_MAX32 for r in case["records"]) and pred_vcf(case, out, wrap=True) == []: return "C16-vcf-pos-int32-wrap"
-        return None
+    if case["kind"] == "vcf": return None          # C16-vcf-pos-int32-wrap is repaired (variant.start + 1): a wrapped coordinate is a violation
     if case["kind"] == "df" and clauses:
         tags = set()
         for c in clauses:
@@ -1170,11 +1167,9 @@ def gen_vcf_rich(rng, i):
     elif order == "sorted": recs.sort(key=lambda r: (r["chrom"], r["pos"]))
     return {"kind": "vcf", "cls": cls, "samples": samples, "contigs": contigs, "records": recs, "auto_group": auto, "ties": ties, "rich": True}
 
-def _wrap32(z): return (z + 2 ** 31) % 2 ** 32 - 2 ** 31
-
-def pred_vcf(case, out, wrap=False):
+def pred_vcf(case, out):
     """the property on the outputs, against the TEXT of the file (no model): every field the importer fills equals the column of the
-    file it stands for.  wrap=True is used by `classify` only: the coordinates a 32-bit POS field would give"""
+    file it stands for - the POS column as written, whatever its size (coordinates >= 2^31 included)"""
     bad = []
     o = out["obj"]; recs = case["records"]; n = len(case["samples"]); p = len(recs)
     def arr(k): return None if o[k] is None else o[k]
@@ -1193,7 +1188,7 @@ def pred_vcf(case, out, wrap=False):
         if o[k] is None or len(o[k]["d"]) != p: bad.append("%s missing or of wrong length" % k); return bad
     for k, t in (("vrnt_chrgrp", "i64"), ("vrnt_phypos", "i64")):
         if o[k]["t"] != t: bad.append("%s has dtype %s, expected int64" % (k, o[k]["t"]))
-    fpos = (lambda r: _wrap32(r["pos"])) if wrap else (lambda r: r["pos"])
+    fpos = lambda r: r["pos"]
     got = [(o["vrnt_chrgrp"]["d"][j], o["vrnt_phypos"]["d"][j], o["vrnt_name"]["d"][j], col(j)) for j in range(p)]
     want = [(r["chrom"], fpos(r), "None" if r["id"] == "." else r["id"], wantcol(r)) for r in recs]
     perm = list(range(p))                                 # file record standing at output position j
